@@ -355,9 +355,10 @@ impl Property for C14 {
             sub_delay: 1,
             init_ccr: Some(rng.u8() & 0x7f),
             stack_off: if rng.chance(1, 2) { 0 } else { 4 * rng.below(64) as u16 },
+            exit_style: if rng.chance(1, 2) { 0 } else { rng.below(5) as u8 },
         };
         let est = super::c10::estimate_iters(&guest);
-        let cfg = SysCfg { wait_start: false, clock: gen_clock_model(rng), clock_seed: rng.next_u64(), step_cap: est * 4 + 10_000, print_msgs: rng.chance(1, 8) };
+        let cfg = SysCfg { wait_start: false, clock: gen_clock_model(rng), clock_seed: rng.next_u64(), step_cap: est * 4 + 10_000, print_msgs: rng.chance(1, 8), print_opcode: false };
         Scn { guest, events, cfg }
     }
 
